@@ -154,7 +154,7 @@ func impl() {
 				res = "badline"
 				return
 			}
-			p.Next() // class
+			lineClass := p.Next() // class
 			a := strings.ReplaceAll(p.Next(), "~", " ")
 			b := strings.ReplaceAll(p.Next(), "~", " ")
 			var a2, b2 string
@@ -252,7 +252,13 @@ func impl() {
 			}
 			fmt.Fprintf(&sb, " T %s %s H %s R%s", b2s(nilAB), b2s(nilBA), b2s(hist), rs.String())
 			if kind == "cc" {
-				sb.WriteString(concurrent(p, n, tAB, tBA))
+				// cc-sr lines (constructors that store into the shared *SR per call): the window in which another goroutine can
+				// observe an intermediate value is a few nanoseconds, so they get ten times the repetitions (11 s per quick run)
+				reps := 200
+				if strings.Contains(lineClass, "-sr") {
+					reps = 2000
+				}
+				sb.WriteString(concurrent(p, n, tAB, tBA, reps))
 			}
 			if kind == "tw" {
 				if twErr != nil {
@@ -276,7 +282,7 @@ func impl() {
 // input.  Only emitted for definition pairs for which the unchanged tree performs no write per call
 // (tmerc, lcc, aea, merc, longlat with every parameter given and no datum shift: checked with
 // `go build -race`, see notes/C08.md).  Returns " X <differing answers> <first differing position>".
-func concurrent(p *vproto.Parser, n int, tAB, tBA proj.Transformer) string {
+func concurrent(p *vproto.Parser, n int, tAB, tBA proj.Transformer, reps int) string {
 	if tAB == nil || tBA == nil {
 		return " X 0 -"
 	}
@@ -301,7 +307,7 @@ func concurrent(p *vproto.Parser, n int, tAB, tBA proj.Transformer) string {
 	for i, pt := range pts {
 		seq[i] = one(pt)
 	}
-	const G, reps = 8, 200
+	const G = 8
 	var mu sync.Mutex
 	bad, first := 0, -1
 	var wg sync.WaitGroup
